@@ -94,6 +94,33 @@ func c07(c *Ctx) {
 			}
 		}
 	}
+	// exhaustive small scope for every type with a counted list: lengths 0..4 and the largest the count byte can
+	// express (255; the WORD / DWORD counts go to 300 here and to 65535 in the thorough tier)
+	lens := []int{0, 1, 2, 3, 4, 255, 300}
+	if !c.Quick() {
+		lens = append(lens, 65535)
+	}
+	for _, name := range []string{"P0x8003", "P0x8800", "P0x9212", "T0x0805", "T0x1205", "T0x1210", "T0x0704"} {
+		t := BodyTypeByName(name)
+		for _, dial := range t.Dialects() {
+			for _, k := range lens {
+				g.ForceList = k + 1
+				if name == "T0x0704" {
+					g.ForceList = k // the generator adds the mandatory first item itself
+					if k == 0 {
+						continue
+					}
+				}
+				for i := 0; i < 3; i++ {
+					if v, ok := g.Value(t, 2, consts.ActiveSafetyType(dial)); ok {
+						c.Count(fmt.Sprintf("listlen:%s:%d", name, k))
+						oneValue(c, t, 2, dial, v)
+					}
+				}
+			}
+		}
+	}
+	g.ForceList = 0
 	wellFormedBodies(c, g)
 	signIDFinding(c, g)
 	paramsSweep(c, g)
@@ -244,10 +271,34 @@ func oneValue(c *Ctx, t *BodyType, ver, dial int, v BodyHandler) {
 		}
 	}
 	// correspondence: bytes -> value -> bytes, and value -> bytes -> value
-	if inModel[t.Name] && len(b) <= 4000 {
+	if inModel[t.Name] && len(b) <= 20000 {
 		c.Do(req, len(b) > 0)
 		c.Do(reqv, len(b) > 0)
 		c.Count("corr:" + t.Name)
+		// neighbours of the encoded body (one byte short, one byte long, one byte flipped): correspondence only - the
+		// model claims to mirror which bodies a parser rejects (short reads, `!=` guards) and which trailing bytes it ignores
+		if !t.Gbk && len(b) <= 2000 && c.Rng.Intn(3) == 0 {
+			var nb []byte
+			switch c.Rng.Intn(3) {
+			case 0:
+				if len(b) > 0 {
+					nb = b[:len(b)-1]
+				}
+			case 1:
+				nb = append(append([]byte{}, b...), byte(c.Rng.Intn(256)))
+			default:
+				if len(b) > 0 {
+					nb = append([]byte{}, b...)
+					nb[c.Rng.Intn(len(nb))] ^= byte(1 << uint(c.Rng.Intn(8)))
+				}
+			}
+			if nb != nil {
+				// bparse = the parse side only: re-encoding a value outside the domain (e.g. a time text with
+				// non-decimal characters) is not something the model claims to mirror
+				ans := c.Do(fmt.Sprintf("bparse %s %d %d %s", t.Name, ver, dial, Hx(nb)), true)
+				c.Count("neighbour:" + strings.SplitN(ans, " ", 2)[0])
+			}
+		}
 	} else {
 		c.Eval(req, true)
 		c.Count("direct-only:" + t.Name)
@@ -264,6 +315,19 @@ func textLeaves(v BodyHandler) []string {
 // paramsSweep: every terminal-parameter id alone, all together, in wire order different from struct order.
 func paramsSweep(c *Ctx, g *Gen) {
 	t := BodyTypeByName("P0x8103")
+	// the id -> field / kind table itself, read off the real struct and parser, against the model's param_fields
+	c.Do("ptable", true)
+	// every id 0..0x1ff alone on the wire (typed, caseless and unknown ids alike): parse + re-encode, both sides
+	for id := uint32(0); id < 0x200; id++ {
+		body := append([]byte{1}, g.ParamsWire([]uint32{id})...)
+		h := t.New(0)
+		if ParseInto(h, 2, Exact(body)) != "ok" {
+			viol(c, Violation{Signature: "C07/params-reject", What: "a one-parameter list is rejected", Input: "brt P0x8103 2 0 " + Hx(body), Observed: "err", Required: "ok"})
+			continue
+		}
+		c.Count("params:id-sweep")
+		c.Do("brt P0x8103 2 0 "+Hx(body)+gbkArg(textLeaves(h)), true)
+	}
 	all := AllParamIDs()
 	extra := []uint32{0x02a, 0x02b, 0x000, 0x075, 0x076, 0x111, 0xf364, 0xffffffff}
 	reps := 2
